@@ -10,6 +10,7 @@ import (
 	"reflect"
 	"regexp"
 	"strings"
+	"unicode/utf8"
 	"unsafe"
 )
 
@@ -2996,12 +2997,10 @@ func compositeLitKeyedNotype(n *node) { doCompositeLitKeyed(n, false) }
 
 func empty(n *node) {}
 
-var rat = reflect.ValueOf((*[]rune)(nil)).Type().Elem() // runes array type
-
 func _range(n *node) {
 	index0 := n.child[0].findex // array index location in frame
 	index2 := index0 - 1        // shallow array for range, always just behind index0
-	index3 := index2 - 1        // additional location to store string char position
+	index3 := index2 - 1        // additional location to store the position of the next rune in string
 	fnext := getExec(n.fnext)
 	tnext := getExec(n.tnext)
 
@@ -3009,47 +3008,58 @@ func _range(n *node) {
 	var an *node
 	if len(n.child) == 4 {
 		an = n.child[2]
-		index1 := n.child[1].findex // array value location in frame
-		if isString(an.typ.TypeOf()) {
-			// Special variant of "range" for string, where the index indicates the byte position
-			// of the rune in the string, rather than the index of the rune in array.
-			stringType := reflect.TypeOf("")
-			value = genValueAs(an, rat) // range on string iterates over runes
-			n.exec = func(f *frame) bltn {
-				a := f.data[index2]
-				v0 := f.data[index3]
-				v0.SetInt(v0.Int() + 1)
-				i := int(v0.Int())
-				if i >= a.Len() {
-					return fnext
-				}
-				// Compute byte position of the rune in string
-				pos := a.Slice(0, i).Convert(stringType).Len()
-				f.data[index0].SetInt(int64(pos))
-				f.data[index1].Set(a.Index(i))
-				return tnext
-			}
-		} else {
-			value = genValueRangeArray(an)
-			n.exec = func(f *frame) bltn {
-				a := f.data[index2]
-				v0 := f.data[index0]
-				v0.SetInt(v0.Int() + 1)
-				i := int(v0.Int())
-				if i >= a.Len() {
-					return fnext
-				}
-				f.data[index1].Set(a.Index(i))
-				return tnext
-			}
-		}
 	} else {
 		an = n.child[1]
-		if isString(an.typ.TypeOf()) {
-			value = genValueAs(an, rat) // range on string iterates over runes
-		} else {
-			value = genValueRangeArray(an)
+	}
+
+	if isString(an.typ.TypeOf()) {
+		// Special variant of "range" for string: the index is the byte position of
+		// the rune in the string, and invalid UTF-8 yields 0xFFFD for one byte.
+		index1 := -1
+		if len(n.child) == 4 {
+			index1 = n.child[1].findex // rune value location in frame
 		}
+		value = genValue(an)
+		n.exec = func(f *frame) bltn {
+			s := f.data[index2].String()
+			pos := int(f.data[index3].Int())
+			if pos >= len(s) {
+				return fnext
+			}
+			r, w := utf8.DecodeRuneInString(s[pos:])
+			f.data[index0].SetInt(int64(pos))
+			if index1 >= 0 {
+				f.data[index1].SetInt(int64(r))
+			}
+			f.data[index3].SetInt(int64(pos + w))
+			return tnext
+		}
+
+		// Init sequence
+		next := n.exec
+		n.child[0].exec = func(f *frame) bltn {
+			f.data[index2] = reflect.ValueOf(value(f).String()) // set string copy for range
+			f.data[index3].SetInt(0)  // position of the first rune
+			return next
+		}
+		return
+	}
+
+	value = genValueRangeArray(an)
+	if len(n.child) == 4 {
+		index1 := n.child[1].findex // array value location in frame
+		n.exec = func(f *frame) bltn {
+			a := f.data[index2]
+			v0 := f.data[index0]
+			v0.SetInt(v0.Int() + 1)
+			i := int(v0.Int())
+			if i >= a.Len() {
+				return fnext
+			}
+			f.data[index1].Set(a.Index(i))
+			return tnext
+		}
+	} else {
 		n.exec = func(f *frame) bltn {
 			v0 := f.data[index0]
 			v0.SetInt(v0.Int() + 1)
@@ -3062,13 +3072,9 @@ func _range(n *node) {
 
 	// Init sequence
 	next := n.exec
-	index := index0
-	if isString(an.typ.TypeOf()) && len(n.child) == 4 {
-		index = index3
-	}
 	n.child[0].exec = func(f *frame) bltn {
 		f.data[index2] = value(f) // set array shallow copy for range
-		f.data[index].SetInt(-1)  // assing index value
+		f.data[index0].SetInt(-1) // assing index value
 		return next
 	}
 }
